@@ -37,6 +37,7 @@ type SecureAead struct {
 	secret []byte
 	aead   cipher.AEAD
 	nonce  []byte
+	rbuf   []byte // decrypted bytes of the current frame not yet handed to the caller
 }
 
 const (
@@ -117,26 +118,29 @@ func (sa *SecureAead) increaseNonce() {
 	}
 }
 func (sa *SecureAead) Read(b []byte) (n int, err error) {
-	frame := make([]byte, secureConnFrameSize)
-	_, err = io.ReadFull(sa.conn, frame[:secureConnHeaderSize])
-	if err != nil {
-		return
+	if len(sa.rbuf) == 0 {
+		var header [secureConnHeaderSize]byte
+		if _, err = io.ReadFull(sa.conn, header[:]); err != nil {
+			return 0, err
+		}
+		fn := int(binary.BigEndian.Uint16(header[:]))
+		sealed := make([]byte, fn+sa.aead.Overhead())
+		if _, err = io.ReadFull(sa.conn, sealed); err != nil {
+			if err == io.EOF {
+				err = io.ErrUnexpectedEOF
+			}
+			return 0, err
+		}
+		var plain []byte
+		if plain, err = sa.aead.Open(sealed[:0], sa.nonce, sealed, nil); err != nil {
+			return 0, err
+		}
+		sa.increaseNonce()
+		sa.rbuf = plain
 	}
-	n = int(binary.BigEndian.Uint16(frame))
-	sealed := make([]byte, n+sa.aead.Overhead())
-	_, err = io.ReadFull(sa.conn, sealed)
-	if err != nil {
-		return
-	}
-
-	_, err = sa.aead.Open(frame[:0], sa.nonce, sealed[:], nil)
-	if err != nil {
-		return
-	}
-	sa.increaseNonce()
-
-	copy(b, frame[:n])
-	return
+	n = copy(b, sa.rbuf)
+	sa.rbuf = sa.rbuf[n:]
+	return n, nil
 }
 
 func (sa *SecureAead) Write(b []byte) (n int, err error) {
